@@ -70,11 +70,13 @@ Flatten(toks) ==
     IF toks = <<>> THEN <<>>
     ELSE (IF Head(toks).sp THEN <<32>> ELSE <<>>) \o Head(toks).s \o Flatten(Tail(toks))
 Spaces(k) == [j \in 1..k |-> 32]
-RECURSIVE FlattenPretty(_)
-FlattenPretty(toks) ==
+\* the indentation field counts levels; how many spaces a level is worth is the serialiser's choice (w)
+RECURSIVE FlattenPrettyW(_, _)
+FlattenPrettyW(toks, w) ==
     IF toks = <<>> THEN <<>>
     ELSE LET t == Head(toks) IN
-         Spaces(2 * t.ind) \o (IF t.sp THEN <<32>> ELSE <<>>) \o t.s \o (IF t.nl THEN <<10>> ELSE <<>>) \o FlattenPretty(Tail(toks))
+         Spaces(w * t.ind) \o (IF t.sp THEN <<32>> ELSE <<>>) \o t.s \o (IF t.nl THEN <<10>> ELSE <<>>) \o FlattenPrettyW(Tail(toks), w)
+PrettySpells(toks, text) == \E w \in 1..8 : FlattenPrettyW(toks, w) = text
 
 \* C14: what indentation may add.  blocked: an ancestor-or-self has text children or is in the suppress list.
 HasTextKid(N, e) == \E y \in SeqRange(NormKids(N, e)) : N[y].k = "text"
